@@ -44,7 +44,7 @@ class BuildError(Exception):
 
 def build_impl(variant='c', sanitize=True, hooks=True, extra_defs=()):
     """Build the driver against the library sources of /repo's *working tree*.
-    variant: 'c' | 'cxx' | 'fault' (C, allocate.c routed through counting/failing wrappers).
+    variant: 'c' | 'cxx' | 'fault' (C, every library source routed through counting/failing wrappers).
     Returns the path of the executable (in a scratch dir)."""
     d = scratch_dir('yv_impl_')
     src = os.path.join(d, 'src')
@@ -67,7 +67,9 @@ def build_impl(variant='c', sanitize=True, hooks=True, extra_defs=()):
         comp = cc
         if f.endswith('.c') and cxx:
             comp = 'clang'   # allocate.c is C in both libraries
-        if f == 'allocate.c' and variant == 'fault':
+        if variant == 'fault':
+            # every request of the library is a failable one: allocate.c's wrappers, the default tree allocator of
+            # yaep_parse and the stack extension of the generated description parser (YYMALLOC) in yaep.c
             fl += ['-Dmalloc=yv_malloc', '-Dcalloc=yv_calloc', '-Drealloc=yv_realloc', '-Dfree=yv_free']
         cmd = [comp] + (std if comp == 'clang++' else []) + fl + ['-c', os.path.join(src, f), '-o', o]
         jobs.append((cmd, subprocess.Popen(cmd, stdout=subprocess.PIPE, stderr=subprocess.PIPE, text=True)))
@@ -94,7 +96,7 @@ def hx(s):
     return 'x' + s.hex()
 
 
-ASAN_ENV = 'abort_on_error=0:detect_leaks=1:allocator_may_return_null=1:exitcode=99:malloc_context_size=4'
+ASAN_ENV = 'abort_on_error=0:detect_leaks=1:allocator_may_return_null=1:exitcode=99:malloc_context_size=4:max_malloc_fill_size=1048576:malloc_fill_byte=190'
 
 
 def run_driver(exe, script, timeout_case=20, shards=None, leaks=False, batch=None):
@@ -188,7 +190,7 @@ def simple_case(cid, g, strict, cfg, toks, allocmode=0, free_tree=True, walk=Tru
     v = variation or {}
     if v.get('pad_before') or v.get('pad_after'):
         g = dict(g, terms=list(v.get('pad_before', [])) + list(g['terms']) + list(v.get('pad_after', [])))
-    L = ['CASE %s' % cid, 'NEW 0'] + script_cfg(0, cfg) + script_read(0, g, strict)
+    L = ['CASE %s' % cid, 'NEW 0'] + script_cfg(0, cfg) + (['DESC 0 %d %s' % (strict, hx(v['desc']))] if v.get('desc') else script_read(0, g, strict))
     k = 0
     if v.get('pre') is not None:
         pt = v['pre']
@@ -212,7 +214,69 @@ def simple_case(cid, g, strict, cfg, toks, allocmode=0, free_tree=True, walk=Tru
     return '\n'.join(L)
 
 
-def vary(key, g, toks, p_pad=0.2, p_pre=0.15):
+_IDENT = re.compile(r'^[A-Za-z_][A-Za-z0-9_]*$')
+
+
+def desc_text(g, r):
+    """A description (syntax of yaep_parse_grammar) that denotes the grammar dict g, or None when g cannot be written
+    that way (a terminal that is neither an identifier nor a character constant of its own code, ...)."""
+    tname = {}
+    decl = []
+    for nm, code in g['terms']:
+        if _IDENT.match(nm) and nm not in ('TERM', 'error'):
+            if len(nm) == 1 and ord(nm) == code and r.random() < 0.5:
+                tname[nm] = "'%s'" % nm
+            else:
+                tname[nm] = nm
+                decl.append('%s=%d' % (nm, code))
+        elif len(nm) == 1 and ord(nm) == code and 32 < code < 127 and nm not in "'\\":
+            tname[nm] = "'%s'" % nm
+        else:
+            return None
+    # a terminal written as a character constant is declared by its use: one that no rule uses needs a TERM declaration
+    used = {x for lhs, rhs, anode, cost, tr in g['rules'] for x in rhs}
+    for nm, code in g['terms']:
+        if tname[nm].startswith("'") and nm not in used:
+            if not _IDENT.match(nm):
+                return None
+            tname[nm] = nm
+            decl.append('%s=%d' % (nm, code))
+    out = []
+    if decl:
+        r.shuffle(decl)
+        out.append('TERM ' + ' '.join(decl) + ';')
+    prev = None
+    for lhs, rhs, anode, cost, tr in g['rules']:
+        if not _IDENT.match(lhs) or lhs == 'TERM' or (anode is not None and (not _IDENT.match(anode) or anode == 'TERM')):
+            return None
+        syms = []
+        for x in rhs:
+            if x in tname:
+                syms.append(tname[x])
+            elif _IDENT.match(x) and x != 'TERM':
+                syms.append(x)
+            else:
+                return None
+        t = ' '.join(syms)
+        if anode is not None:
+            t += ' # %s' % anode
+            if cost != 1 or r.random() < 0.5:
+                t += ' %d' % cost
+            if tr or r.random() < 0.5:
+                t += ' (%s)' % ' '.join('-' if x == NIL else str(x) for x in (tr or []))
+        elif tr is not None:
+            if len(tr) > 1:
+                return None
+            t += ' #' + (' -' if tr and tr[0] == NIL else (' %d' % tr[0] if tr else ''))
+        if prev == lhs and r.random() < 0.6:
+            out[-1] = out[-1].rstrip(';').rstrip() + '\n  | ' + t + ' ;'
+        else:
+            out.append('%s : %s ;' % (lhs, t))
+        prev = lhs
+    return '\n'.join(out) + '\n'
+
+
+def vary(key, g, toks, p_pad=0.2, p_pre=0.15, p_desc=0.1):
     """Deterministic (from key) choice of an implementation-side variation for a case."""
     import random as _r
     r = _r.Random('vary:%s' % (key,))
@@ -237,11 +301,19 @@ def vary(key, g, toks, p_pad=0.2, p_pre=0.15):
         v['pre'] = list(toks)
         if r.random() < 0.6:
             v['pre_cfg'] = {kk: r.choice(vals) for kk, vals in (('la', [0, 1, 2]), ('one', [0, 1]), ('cost', [0, 1]), ('rec', [0, 1])) if r.random() < 0.5}
+    elif x < p_pad + p_pre + p_desc:
+        t = desc_text(g, r)
+        if t is not None:
+            v['desc'] = t          # the grammar is defined through its description text instead of the callbacks
     return v
 
 
 def strip_variation(r, v):
     """Remove the ops of the earlier parse from a driver result so that consumers see one parse."""
+    if v and v.get('desc') and 'ops' in r:
+        for o in r['ops']:
+            if o.get('op') == 'desc':
+                o['op'] = 'read'      # consumers look for the defining call under this name
     if not v or v.get('pre') is None or 'ops' not in r:
         return r
     ops, out, dropped = r['ops'], [], {'parse': 0, 'freet': 0}
@@ -402,11 +474,22 @@ def run_containers(exe, lines, timeout=600):
     env['ASAN_OPTIONS'] = ASAN_ENV
     env['UBSAN_OPTIONS'] = 'print_stacktrace=1:halt_on_error=1'
     res = {}
+    hangs = [0]
 
     def run_chunk(ch, tag):
         fn = os.path.join(d, 'c%s.txt' % tag)
         open(fn, 'w').write('\n'.join(ch) + '\n')
-        p = subprocess.run([exe, fn], stdout=subprocess.PIPE, stderr=subprocess.PIPE, text=True, env=env, timeout=timeout)
+        class _P:
+            pass
+        try:
+            p = subprocess.run([exe, fn], stdout=subprocess.PIPE, stderr=subprocess.PIPE, text=True, env=env, timeout=min(timeout, 12 + len(ch) // 40))
+        except subprocess.TimeoutExpired as e:
+            # a container operation that does not return: the case after the last completed one hangs
+            p = _P()
+            p.returncode = -14
+            p.stdout = (e.stdout.decode('latin-1') if isinstance(e.stdout, bytes) else (e.stdout or ''))
+            p.stderr = 'ERROR: watchdog: the operation sequence did not finish'
+            hangs[0] += 1
         done = 0
         for l in p.stdout.splitlines():
             try:
@@ -418,8 +501,10 @@ def run_containers(exe, lines, timeout=600):
         return p, done
     chunks = [lines[i::n] for i in range(n)]
     for ci, ch in enumerate(chunks):
+        if hangs[0] >= 3:
+            break            # three sequences did not return: the rest is not run
         p, done = run_chunk(ch, str(ci))
-        while p.returncode != 0 and done < len(ch):
+        while p.returncode != 0 and done < len(ch) and hangs[0] < 3:
             # the case after the last completed one crashed
             bad = ch[done]
             cid = bad.split()[0]
